@@ -74,7 +74,14 @@ class Or(Constraint):
     def __init__(self, **data) -> None:
         super().__init__(**data)
 
-        asst = z3.Or(_constraints_to_list_of_assertions(self.list_of_constraints))
+        # each operand holds if all its assertions hold: the disjunction is
+        # over the operands, not over their individual assertions
+        asst = z3.Or(
+            [
+                z3.And(_get_assertions(constraint))
+                for constraint in self.list_of_constraints
+            ]
+        )
 
         self.set_z3_assertions(asst)
 
